@@ -18,12 +18,15 @@ C13_CLAUSES = {"OnlyTargetsOverridden", "OverrideValueIsTheKeys", "Inv:OnlyTarge
 SPECIES = [(["H", "H"], ["H2"]), (["C", "H"], ["CH"]), (["CH", "H"], ["C", "H2"]), (["O", "H"], ["OH"]), (["OH", "H"], ["O", "H2"]),
            (["C", "O"], ["CO"]), (["H2", "O"], ["OH", "H"]), (["CO", "H"], ["C", "OH"])]
 CODE = {"kida": 3, "umist": "NN", "leeds": 1, "uclchem": "MA", "krome": None, "naunet": 100}
+OTHER_CLASSES = {"umist": [("PH", "PHOTON"), ("CP", "CRP"), ("CR", "CRPHOT")], "kida": [(1, "CR"), (2, "Photon")],
+                 "uclchem": [("CRP", None), ("PHOTON", None), ("CRPHOT", None)]}
 KROME_WINDOW_TEXT = [
     ("NONE", -1.0), ("N/A", -1.0), ("", -1.0), (">10", 10.0), (".GE.1d2", 100.0), (".GT.2d3", 2000.0), (".LE.2.d3", 2000.0),
     ("1.0d4", 10000.0), ("<1e4", 10000.0), ("5.5e3", 5500.0), (".LT.300", 300.0), ("1160", 1160.0), (".GE.5d1", 50.0),
+    ("11604.52", 11604.52), ("157821.3", 157821.3), (".GE.1234567.25", 1234567.25),      # bounds with more than six significant digits
 ]
 WINDOWS = [(-1.0, -1.0), (0.0, 0.0), (10.0, -1.0), (-1.0, 300.0), (10.0, 300.0), (300.0, 1000.0), (1000.0, 41000.0), (5.0, 10.0),
-           (0.0, 50.0), (20.0, 0.0)]
+           (0.0, 50.0), (20.0, 0.0), (11604.52, 157821.3), (1234.56, 1234567.25)]
 
 
 def gen_case(rng: random.Random, k: int) -> dict:
@@ -42,6 +45,11 @@ def gen_case(rng: random.Random, k: int) -> dict:
             lo, hi = rng.choice(WINDOWS)
             idx = {"unique": rng.randint(1, 9000), "shared": rng.choice([7, 7, 4000]), "onebased": j + 1}[style]
             rec = {"r": r, "p": p, "a": 1.0e-10 * (j + 1), "b": 0.5, "c": 10.0 * j, "tmin": lo, "tmax": hi, "idx": idx, "code": CODE[fmt]}
+            if rng.random() < 0.4 and fmt in OTHER_CLASSES:
+                # other reaction classes of the format: photo-processes and cosmic-ray processes of ONE species (the partner is a
+                # pseudo-reactant); their declared windows count like any other
+                code, partner = rng.choice(OTHER_CLASSES[fmt])
+                rec.update(code=code, r=[p[0]] + ([partner] if partner else []), p=list(r))
             recs.append(rec)
         if piece and recs:          # adjacent piecewise fits of the first reaction, all under ONE index (as KIDA/UMIST files do)
             r0 = recs[0]
